@@ -401,3 +401,347 @@ Proof.
     apply FI_remove_close; auto.
   - exact H.
 Qed.
+
+(* ------------------------------------------------------------------------------------------ *)
+(* steps of a GetOrCreate caller                                                                *)
+(* ------------------------------------------------------------------------------------------ *)
+Lemma hd_upd thr i t t' e :
+  nth_error thr i = Some t -> hd thr e -> (holds_e t e -> holds_e t' e) -> hd (upd thr i t') e.
+Proof.
+  intros Ht (j & tj & Hj & Hh) Hk. destruct (Nat.eq_dec j i) as [->|Ne].
+  - rewrite Ht in Hj; inversion Hj; subst tj. exists i, t'. split; auto. eapply nth_upd_this; eauto.
+  - exists j, tj. split; auto. rewrite nth_upd_other; auto.
+Qed.
+
+Lemma hd_new thr i t t' e : nth_error thr i = Some t -> holds_e t' e -> hd (upd thr i t') e.
+Proof. intros Ht Hh. exists i, t'. split; auto. eapply nth_upd_this; eauto. Qed.
+
+Lemma hd_facts pl eps thr lock hand e :
+  FIc pl eps thr lock hand -> hd thr e ->
+  exists j tj, nth_error thr j = Some tj /\ holds_e tj e /\ lock (g_k tj) = Some j /\ pl (g_k tj) = None
+               /\ exists u, nth_error eps e = Some u /\ u_key u = g_k tj.
+Proof.
+  intros (_ & _ & _ & T & _) (j & tj & Hj & Hh). exists j, tj. specialize (T j tj Hj). unfold tc in T.
+  destruct Hh as [[Hp|Hp]|Hp]; rewrite Hp in T.
+  - destruct T as (T1 & T2 & (u & H0 & K & _)). repeat split; auto; [left; left; auto|eauto].
+  - destruct T as (T1 & T2 & (u & H0 & K & _)). repeat split; auto; [left; right; auto|eauto].
+  - destruct T as (T1 & T2 & (u & H0 & K)). repeat split; auto; [right; auto|eauto].
+Qed.
+
+Lemma tc_frame pl pl' eps eps' lock lock' hand hand' j tj :
+  tc pl eps lock hand j tj ->
+  (forall e u, nth_error eps e = Some u -> nth_error eps' e = Some u) ->
+  (lock (g_k tj) = Some j -> lock' (g_k tj) = Some j) ->
+  (lock (g_k tj) = Some j -> pl (g_k tj) = None -> pl' (g_k tj) = None) ->
+  (forall e x, prot_t tj e -> In x hand' -> In x hand \/ snd x <> e) ->
+  tc pl' eps' lock' hand' j tj.
+Proof.
+  unfold tc. intros T N L P Hd.
+  assert (FR: forall e0, prot_t tj e0 -> fresh_ok eps hand (g_k tj) e0 -> fresh_ok eps' hand' (g_k tj) e0).
+  { intros e0 Hp (u0 & H0 & X1 & X2 & X3 & X4 & X5 & X6). exists u0. repeat split; auto.
+    intros x Hx. destruct (Hd e0 x Hp Hx) as [Y|Y]; auto. }
+  destruct (g_pc tj) as [| |oe|e0|e0|e0|r] eqn:Epc; auto.
+  - destruct T as (T1&T2&T3). repeat split; auto. destruct oe as [e0|]; auto.
+    destruct T3 as (u0 & H0 & X). exists u0; auto.
+  - destruct T as (T1&T2&T3). repeat split; auto. apply FR; auto. left; exact Epc.
+  - destruct T as (T1&T2&T3). repeat split; auto. apply FR; auto. right; exact Epc.
+  - destruct T as (T1&u0&H0&X). split; auto. exists u0. split; auto.
+Qed.
+
+Definition nolock (t : gthread) : Prop := match g_pc t with GStart | GWaitLock | GDone _ => True | _ => False end.
+
+Lemma nolock_holds t e : nolock t -> ~ holds_e t e.
+Proof. unfold nolock, holds_e, prot_t. intros N [[X|X]|X]; rewrite X in N; exact N. Qed.
+
+(* the caller returns (or moves to a pc without the creation lock) *)
+Lemma FI_done pl eps thr lock lock' hand hand' i t t' :
+  FIc pl eps thr lock hand -> nth_error thr i = Some t -> nolock t' ->
+  (forall e u, holds_e t e -> nth_error eps e = Some u -> u_closed u = true) ->
+  (forall k0, lock' k0 = lock k0 \/ lock k0 = Some i) ->
+  (forall x, In x hand' -> In x hand \/ (~ prot thr (snd x) /\ snd x < length eps)) ->
+  FIc pl eps (upd thr i t') lock' hand'.
+Proof.
+  intros H Ht Nl Hc Hl Hd. pose proof H as (A & B1 & B2 & T & Hh).
+  split; [|split; [|split; [|split]]]; auto.
+  - intros e u Hn Hcl. destruct (B2 e u Hn Hcl) as [X|X]; auto. right. eapply hd_upd; eauto.
+    intros Hh'. specialize (Hc e u Hh' Hn). congruence.
+  - intros j tj Hj. apply nth_upd_cases in Hj. destruct Hj as [(-> & ->)|(Ne & Hj)].
+    + unfold tc, nolock in *. destruct (g_pc t'); auto; contradiction.
+    + specialize (T j tj Hj). eapply tc_frame; eauto.
+      * intros L. destruct (Hl (g_k tj)) as [X|X]; congruence.
+      * intros e x Hp Hx. destruct (Hd x Hx) as [Y|(Y&_)]; auto. right. intros E. apply Y. rewrite E. exists j, tj. auto.
+  - intros x Hx. destruct (Hd x Hx) as [Y|(_&Y)]; auto.
+Qed.
+
+Lemma FI_step_nolock pl eps thr lock hand i t t' :
+  FIc pl eps thr lock hand -> nth_error thr i = Some t -> nolock t -> nolock t' ->
+  FIc pl eps (upd thr i t') lock hand.
+Proof.
+  intros H Ht N N'. eapply FI_done; eauto.
+  intros e u Hh. destruct (nolock_holds t e N Hh).
+Qed.
+
+(* createMu acquired, the stale entry (if any) leaves the map *)
+Lemma FI_lock pl pl' eps thr lock hand i t t' oe :
+  FIc pl eps thr lock hand -> nth_error thr i = Some t -> nolock t -> lock (g_k t) = None ->
+  g_k t' = g_k t -> g_pc t' = GSlow oe ->
+  (forall k0, k0 <> g_k t -> pl' k0 = pl k0) -> pl' (g_k t) = None ->
+  match oe with Some e => pl (g_k t) = Some e | None => pl (g_k t) = None end ->
+  FIc pl' eps (upd thr i t') (fset lock (g_k t) (Some i)) hand.
+Proof.
+  intros H Ht Nl Hl Hk Hpc Po Pk Hoe. pose proof H as (A & B1 & B2 & T & Hh).
+  split; [|split; [|split; [|split]]]; auto.
+  - intros k e Hke. destruct (Nat.eq_dec k (g_k t)) as [->|Ne]; [congruence|]. rewrite Po in Hke by auto. auto.
+  - intros e u Hn Hcl. destruct (B2 e u Hn Hcl) as [X|X].
+    + destruct (Nat.eq_dec (u_key u) (g_k t)) as [Ek|Ne].
+      * right. rewrite Ek in X. destruct oe as [e0|]; [|congruence]. assert (e0 = e) by congruence. subst e0.
+        eapply hd_new; eauto. right. exact Hpc.
+      * left. rewrite Po; auto.
+    + right. eapply hd_upd; eauto. intros Y. destruct (nolock_holds t e Nl Y).
+  - intros j tj Hj. apply nth_upd_cases in Hj. destruct Hj as [(-> & ->)|(Ne & Hj)].
+    + unfold tc. rewrite Hpc, Hk. unfold fset. rewrite Nat.eqb_refl. repeat split; auto.
+      destruct oe as [e|]; auto. destruct (A _ _ Hoe) as (u & H0 & H1 & _). exists u; auto.
+    + specialize (T j tj Hj). eapply tc_frame; eauto.
+      * intros L. unfold fset. destruct (g_k tj =? g_k t) eqn:E; auto. apply Nat.eqb_eq in E. congruence.
+      * intros L Pn. destruct (Nat.eq_dec (g_k tj) (g_k t)) as [E|E]; [congruence|]. rewrite Po; auto.
+Qed.
+
+(* shard.pool[key] = ue *)
+Lemma FI_publish pl eps thr lock hand i t t' e :
+  FIc pl eps thr lock hand -> nth_error thr i = Some t -> g_pc t = GBeforePublish e ->
+  g_k t' = g_k t -> g_pc t' = GBeforeRegister e ->
+  FIc (fset pl (g_k t) (Some e)) eps (upd thr i t') lock hand.
+Proof.
+  intros H Ht Hpc Hk Hpc'. pose proof H as (A & B1 & B2 & T & Hh).
+  pose proof (T i t Ht) as Ti. unfold tc in Ti. rewrite Hpc in Ti.
+  destruct Ti as (L & Pn & (u & Hn & K & F & C & D & R & Hd)).
+  split; [|split; [|split; [|split]]]; auto.
+  - intros k e0. unfold fset. destruct (k =? g_k t) eqn:E; [|apply A].
+    apply Nat.eqb_eq in E; subst k. intros X; inversion X; subst e0. exists u; auto.
+  - intros e0 u0 Hn0 Hc0. unfold fset. destruct (u_key u0 =? g_k t) eqn:E.
+    + apply Nat.eqb_eq in E. destruct (B2 e0 u0 Hn0 Hc0) as [X|X]; [congruence|].
+      destruct (hd_facts _ _ _ _ _ _ H X) as (j & tj & Hj & Hhj & Lj & _ & (u1 & H1 & K1)).
+      rewrite Hn0 in H1; inversion H1; subst u1. rewrite <- K1, E, L in Lj. inversion Lj; subst j.
+      rewrite Ht in Hj; inversion Hj; subst tj. left. f_equal.
+      destruct Hhj as [[Y|Y]|Y]; rewrite Hpc in Y; congruence.
+    + destruct (B2 e0 u0 Hn0 Hc0) as [X|X]; auto. right. eapply hd_upd; eauto.
+      intros [[Y|Y]|Y]; rewrite Hpc in Y; try discriminate. inversion Y; subst e0.
+      rewrite Hn in Hn0; inversion Hn0; subst u0. rewrite K, Nat.eqb_refl in E. discriminate.
+  - intros j tj Hj. apply nth_upd_cases in Hj. destruct Hj as [(-> & ->)|(Ne & Hj)].
+    + unfold tc. rewrite Hpc', Hk. split; auto. exists u; auto.
+    + specialize (T j tj Hj). eapply tc_frame; eauto.
+      intros Lj Pj. unfold fset. destruct (g_k tj =? g_k t) eqn:E; auto. apply Nat.eqb_eq in E. congruence.
+Qed.
+
+Lemma FI_pc_same pl eps thr lock hand i t t' e :
+  FIc pl eps thr lock hand -> nth_error thr i = Some t -> g_pc t = GHaveGen e ->
+  g_k t' = g_k t -> g_pc t' = GBeforePublish e ->
+  FIc pl eps (upd thr i t') lock hand.
+Proof.
+  intros H Ht Hpc Hk Hpc'. pose proof H as (A & B1 & B2 & T & Hh).
+  split; [|split; [|split; [|split]]]; auto.
+  - intros e0 u0 Hn0 Hc0. destruct (B2 e0 u0 Hn0 Hc0) as [X|X]; auto. right. eapply hd_upd; eauto.
+    intros [[Y|Y]|Y]; rewrite Hpc in Y; try discriminate. inversion Y; subst e0. left; right; exact Hpc'.
+  - intros j tj Hj. apply nth_upd_cases in Hj. destruct Hj as [(-> & ->)|(Ne & Hj)].
+    + pose proof (T i t Ht) as Ti. unfold tc in *. rewrite Hpc in Ti. rewrite Hpc', Hk. exact Ti.
+    + specialize (T j tj Hj). eapply tc_frame; eauto.
+Qed.
+
+Lemma nth_app_old {A} (l : list A) x e y : nth_error l e = Some y -> nth_error (l ++ [x]) e = Some y.
+Proof. intros H. rewrite nth_error_app1; auto. apply nth_error_Some. congruence. Qed.
+
+Lemma nth_app_cases {A} (l : list A) x e y :
+  nth_error (l ++ [x]) e = Some y -> nth_error l e = Some y \/ (e = length l /\ y = x).
+Proof.
+  intros H. destruct (Nat.lt_ge_cases e (length l)) as [Hlt|Hge].
+  - rewrite nth_error_app1 in H by auto. auto.
+  - rewrite nth_error_app2 in H by auto. destruct (e - length l) as [|n] eqn:En; cbn in H.
+    + inversion H. right. split; auto. lia.
+    + destruct n; discriminate.
+Qed.
+
+Lemma nth_app_new {A} (l : list A) x : nth_error (l ++ [x]) (length l) = Some x.
+Proof. rewrite nth_error_app2 by lia. rewrite Nat.sub_diag. reflexivity. Qed.
+
+(* dial ok: the endpoint object exists, the creator holds it *)
+Lemma FI_build pl eps thr lock hand i t t' oe u :
+  FIc pl eps thr lock hand -> nth_error thr i = Some t -> g_pc t = GSlow oe ->
+  (forall e u, holds_e t e -> nth_error eps e = Some u -> u_closed u = true) ->
+  g_k t' = g_k t -> g_pc t' = GHaveGen (length eps) ->
+  u_key u = g_k t -> u_failed u = false -> u_closed u = false -> u_dead u = false -> u_registered u = false ->
+  u_conn_closes u = 0 ->
+  FIc pl (eps ++ [u]) (upd thr i t') lock hand.
+Proof.
+  intros H Ht Hpc Hcl Hk Hpc' K F C D R N. pose proof H as (A & B1 & B2 & T & Hh).
+  pose proof (T i t Ht) as Ti. unfold tc in Ti. rewrite Hpc in Ti. destruct Ti as (L & Pn & _).
+  split; [|split; [|split; [|split]]].
+  - intros k e Hke. destruct (A k e Hke) as (u0 & H0 & X). exists u0. split; auto. apply nth_app_old; auto.
+  - intros e u0 H0. apply nth_app_cases in H0. destruct H0 as [H0|(-> & ->)]; [eapply B1; eauto|].
+    rewrite N, F, C. reflexivity.
+  - intros e u0 H0 Hc0. apply nth_app_cases in H0. destruct H0 as [H0|(-> & ->)].
+    + destruct (B2 e u0 H0 Hc0) as [X|X]; auto. right. eapply hd_upd; eauto.
+      intros Y. specialize (Hcl e u0 Y H0). congruence.
+    + right. eapply hd_new; eauto. left; left; exact Hpc'.
+  - intros j tj Hj. apply nth_upd_cases in Hj. destruct Hj as [(-> & ->)|(Ne & Hj)].
+    + unfold tc. rewrite Hpc', Hk. repeat split; auto. exists u. rewrite nth_app_new. repeat split; auto.
+      intros x Hx E. specialize (Hh x Hx). lia.
+    + specialize (T j tj Hj). eapply tc_frame; eauto. intros e u0. apply nth_app_old.
+  - intros x Hx. rewrite app_length. specialize (Hh x Hx). lia.
+Qed.
+
+(* dial error: cacheFailureLocked stores a marker, createMu released *)
+Lemma FI_fail pl eps thr lock hand i t t' oe m :
+  FIc pl eps thr lock hand -> nth_error thr i = Some t -> g_pc t = GSlow oe ->
+  (forall e u, holds_e t e -> nth_error eps e = Some u -> u_closed u = true) ->
+  nolock t' ->
+  u_key m = g_k t -> u_failed m = true -> u_closed m = false -> u_dead m = false -> u_conn_closes m = 0 ->
+  FIc (fset pl (g_k t) (Some (length eps))) (eps ++ [m]) (upd thr i t') (fset lock (g_k t) None) hand.
+Proof.
+  intros H Ht Hpc Hcl Nl K F C D N. pose proof H as (A & B1 & B2 & T & Hh).
+  pose proof (T i t Ht) as Ti. unfold tc in Ti. rewrite Hpc in Ti. destruct Ti as (L & Pn & _).
+  split; [|split; [|split; [|split]]].
+  - intros k e. unfold fset. destruct (k =? g_k t) eqn:E.
+    + apply Nat.eqb_eq in E; subst k. intros X; inversion X; subst e. exists m. rewrite nth_app_new. auto.
+    + intros Hke. destruct (A k e Hke) as (u0 & H0 & X). exists u0. split; auto. apply nth_app_old; auto.
+  - intros e u0 H0. apply nth_app_cases in H0. destruct H0 as [H0|(-> & ->)]; [eapply B1; eauto|].
+    rewrite N, F. reflexivity.
+  - intros e u0 H0 Hc0. apply nth_app_cases in H0. destruct H0 as [H0|(-> & ->)].
+    + destruct (B2 e u0 H0 Hc0) as [X|X].
+      * left. unfold fset. destruct (u_key u0 =? g_k t) eqn:E; auto. apply Nat.eqb_eq in E. congruence.
+      * right. eapply hd_upd; eauto. intros Y. specialize (Hcl e u0 Y H0). congruence.
+    + left. unfold fset. rewrite K, Nat.eqb_refl. reflexivity.
+  - intros j tj Hj. apply nth_upd_cases in Hj. destruct Hj as [(-> & ->)|(Ne & Hj)].
+    + unfold tc, nolock in *. destruct (g_pc t'); auto; contradiction.
+    + specialize (T j tj Hj). eapply tc_frame; eauto.
+      * intros e u0. apply nth_app_old.
+      * intros Lj. unfold fset. destruct (g_k tj =? g_k t) eqn:E; auto. apply Nat.eqb_eq in E. congruence.
+      * intros Lj Pj. unfold fset. destruct (g_k tj =? g_k t) eqn:E; auto. apply Nat.eqb_eq in E. congruence.
+  - intros x Hx. rewrite app_length. specialize (Hh x Hx). lia.
+Qed.
+
+(* staleToClose.Close() *)
+Lemma FI_close_stale p thr lock hand i t oe :
+  FIc (p_pool p) (p_eps p) thr lock hand -> nth_error thr i = Some t -> g_pc t = GSlow oe ->
+  let p1 := match oe with Some e => ep_close p e | None => p end in
+  FIc (p_pool p1) (p_eps p1) thr lock hand
+  /\ (forall e u, holds_e t e -> nth_error (p_eps p1) e = Some u -> u_closed u = true).
+Proof.
+  intros H Ht Hpc. pose proof H as (A & B1 & B2 & T & Hh).
+  pose proof (T i t Ht) as Ti. unfold tc in Ti. rewrite Hpc in Ti. destruct Ti as (L & Pn & Ho).
+  destruct oe as [e|]; cbn zeta.
+  - destruct Ho as (u & Hn & K). destruct (ep_close_spec p e) as (C1 & C2 & _). rewrite C1, C2. split.
+    + apply (FI_close_gen (p_pool p) _ _ _ _ _ e u H Hn); auto.
+      * eapply not_prot_lock; eauto. intros [Y|Y]; rewrite Hpc in Y; discriminate.
+      * congruence.
+    + intros e0 u0 [[Y|Y]|Y]; rewrite Hpc in Y; try discriminate. inversion Y; subst e0.
+      destruct (closed_eps_closed _ _ _ Hn) as (u' & H1 & H2). congruence.
+  - split; auto. intros e0 u0 [[Y|Y]|Y]; rewrite Hpc in Y; discriminate.
+Qed.
+
+Lemma FI_reuse_stage p thr lock hand k e g u :
+  FIc (p_pool p) (p_eps p) thr lock hand -> p_pool p k = Some e -> nth_error (p_eps p) e = Some u ->
+  FIc (p_pool (fst (ep_reuse p e g u))) (p_eps (fst (ep_reuse p e g u))) thr lock hand
+  /\ ~ prot thr e /\ e < length (p_eps (fst (ep_reuse p e g u))).
+Proof.
+  intros H Hk Hn. pose proof H as (A & _).
+  destruct (A k e Hk) as (u0 & H0 & K & _). rewrite Hn in H0; inversion H0; subst u0.
+  assert (Np : ~ prot thr e). { eapply not_prot_pool; eauto. congruence. }
+  unfold ep_reuse. cbn [fst].
+  set (s1 := set_ep p e (u_with_exp u (p_now p + nat_timeout))).
+  assert (Hn1 : nth_error (p_eps s1) e = Some (u_with_exp u (p_now p + nat_timeout))).
+  { unfold s1, set_ep, set_eps; cbn [p_eps]. eapply nth_upd_this; eauto. }
+  assert (H1 : FIc (p_pool s1) (p_eps s1) thr lock hand).
+  { unfold s1, set_ep, set_eps; cbn [p_pool p_eps]. eapply FI_shape; eauto. repeat split. }
+  destruct (adopt_core_eps s1 e g) as (P & _ & _ & _ & _ & E).
+  destruct (E _ Hn1) as (u' & Hs & _ & _ & _ & Eq). rewrite P, Eq. split; [|split; auto].
+  - eapply FI_shape; eauto. intros X; contradiction.
+  - rewrite upd_length. apply nth_error_Some. congruence.
+Qed.
+
+Lemma FI_fthr s i : FI s -> FI (fstep_thr s i).
+Proof.
+  intros H. destruct s as [p thr lock hnd inv]. unfold FI in *. cbn [f_p f_thr f_lock f_hand] in H.
+  unfold fstep_thr. cbn [f_p f_thr f_lock f_hand f_inval].
+  destruct (nth_error thr i) as [t|] eqn:Ht; [|exact H].
+  pose proof H as (A & B1 & B2 & T & Hh).
+  destruct t as [k d g out pc]. unfold set_gpc, hand, unlock. cbn [g_k g_d g_g g_out g_pc f_thr f_hand f_lock r_ret].
+  assert (Reuse : forall e u, p_pool p k = Some e -> nth_error (p_eps p) e = Some u -> (pc = GStart \/ pc = GWaitLock) ->
+            FIc (p_pool (fst (ep_reuse p e g u))) (p_eps (fst (ep_reuse p e g u)))
+                (upd thr i (mkG k d g out (GDone (snd (ep_reuse p e g u))))) lock (hnd ++ [(i, e)])).
+  { intros e u Hk Hn Hpc. destruct (FI_reuse_stage p thr lock hnd k e g u H Hk Hn) as (H1 & Np & Hl).
+    eapply FI_done; eauto.
+    - exact I.
+    - intros e0 u0 Y. exfalso. revert Y. apply nolock_holds. unfold nolock; cbn. destruct Hpc as [-> | ->]; exact I.
+    - intros x Hx. apply in_app_or in Hx. destruct Hx as [Hx|[<-|[]]]; auto. }
+  destruct pc as [| |oe|e|e|e|r].
+  - (* GStart *)
+    destruct (p_pool p k) as [e|] eqn:Hk; [|eapply FI_step_nolock; eauto; exact I].
+    destruct (nth_error (p_eps p) e) as [u|] eqn:Hn; [|eapply FI_step_nolock; eauto; exact I].
+    destruct (u_failed u).
+    + destruct (is_expired u (p_now p)); cbn [f_p f_thr f_lock f_hand]; eapply FI_step_nolock; eauto; exact I.
+    + destruct (stale p u); [eapply FI_step_nolock; eauto; exact I|].
+      specialize (Reuse e u eq_refl Hn (or_introl eq_refl)). exact Reuse.
+  - (* GWaitLock *)
+    destruct (lock k) as [j|] eqn:Hl; [exact H|].
+    assert (Lk : forall e oe, p_pool p k = Some e -> oe = Some e ->
+                 FIc (fset (p_pool p) k None) (p_eps p) (upd thr i (mkG k d g out (GSlow oe))) (fset lock k (Some i)) hnd).
+    { intros e oe Hk ->. eapply (FI_lock (p_pool p) _ _ _ _ _ i (mkG k d g out GWaitLock) _ (Some e)); eauto; cbn [g_k g_pc];
+        try exact I; try reflexivity; try exact Hk.
+      - intros k0 Hne. unfold fset. apply Nat.eqb_neq in Hne. now rewrite Hne.
+      - unfold fset. now rewrite Nat.eqb_refl. }
+    destruct (p_pool p k) as [e|] eqn:Hk.
+    + destruct (nth_error (p_eps p) e) as [u|] eqn:Hn.
+      2:{ destruct (A k e Hk) as (u & H0 & _). congruence. }
+      destruct (u_failed u).
+      * destruct (is_expired u (p_now p)); cbn [f_p f_thr f_lock f_hand set_pool p_pool p_eps].
+        -- eapply Lk; eauto.
+        -- eapply FI_step_nolock; eauto; exact I.
+      * destruct (stale p u); cbn [f_p f_thr f_lock f_hand set_pool p_pool p_eps].
+        -- eapply Lk; eauto.
+        -- specialize (Reuse e u eq_refl Hn (or_intror eq_refl)). exact Reuse.
+    + cbn [f_p f_thr f_lock f_hand].
+      eapply (FI_lock (p_pool p) _ _ _ _ _ i (mkG k d g out GWaitLock) _ None); eauto; cbn [g_k g_pc]; auto; exact I.
+  - (* GSlow *)
+    destruct (FI_close_stale p thr lock hnd i _ oe H Ht eq_refl) as (H1 & Hcl). cbn zeta in H1, Hcl.
+    set (p1 := match oe with Some e => ep_close p e | None => p end) in *.
+    pose proof (T i _ Ht) as Ti. unfold tc in Ti. cbn [g_pc g_k] in Ti. destruct Ti as (L & Pn & _).
+    assert (Build : FIc (p_pool (fst (build_endpoint p1 k d g))) (p_eps (fst (build_endpoint p1 k d g)))
+                        (upd thr i (mkG k d g out (GHaveGen (snd (build_endpoint p1 k d g))))) lock hnd).
+    { unfold build_endpoint. cbn [fst snd p_pool p_eps].
+      eapply (FI_build _ _ _ _ _ i (mkG k d g out (GSlow oe)) _ oe); eauto; try reflexivity. }
+    destruct out as [|[|[|n]]]; cbn [f_p f_thr f_lock f_hand].
+    + exact Build.
+    + unfold cache_failure. cbn [p_pool p_eps].
+      eapply (FI_fail _ _ _ _ _ i (mkG k d g 1 (GSlow oe)) _ oe); eauto; try reflexivity; exact I.
+    + eapply FI_done; eauto.
+      * exact I.
+      * intros k0. unfold fset. destruct (k0 =? k) eqn:E; auto. apply Nat.eqb_eq in E; subst k0. auto.
+    + exact Build.
+  - (* GHaveGen *)
+    destruct (nth_error (p_eps p) e) as [u|] eqn:Hn; [|exact H].
+    cbn [f_p f_thr f_lock f_hand set_ep set_eps p_pool p_eps].
+    eapply (FI_pc_same _ _ _ _ _ i (mkG k d g out (GHaveGen e)) _ e); try reflexivity; eauto.
+    eapply FI_shape; eauto. repeat split.
+  - (* GBeforePublish *)
+    cbn [f_p f_thr f_lock f_hand set_pool p_pool p_eps].
+    eapply (FI_publish _ _ _ _ _ i (mkG k d g out (GBeforePublish e)) _ e); try reflexivity; eauto.
+  - (* GBeforeRegister *)
+    destruct (nth_error (p_eps p) e) as [u|] eqn:Hn; [|exact H].
+    cbn [f_p f_thr f_lock f_hand set_ep set_eps p_pool p_eps].
+    pose proof (T i _ Ht) as Ti. unfold tc in Ti. cbn [g_pc g_k] in Ti. destruct Ti as (L & (u0 & H0 & K & F)).
+    rewrite Hn in H0; inversion H0; subst u0.
+    assert (Np : ~ prot thr e).
+    { eapply (not_prot_lock _ _ _ _ _ i (mkG k d g out (GBeforeRegister e))); eauto.
+      intros [Y|Y]; discriminate. }
+    assert (H1 : FIc (p_pool p) (upd (p_eps p) e (u_with_registered u)) thr lock hnd).
+    { apply (FI_upd1 _ _ _ _ _ _ e u _ H Hn); auto.
+      - cbn. apply (B1 e u Hn).
+      - intros X; contradiction. }
+    eapply FI_done; eauto.
+    + exact I.
+    + intros e0 u0 [[Y|Y]|Y]; discriminate.
+    + intros k0. unfold fset. destruct (k0 =? k) eqn:E; auto. apply Nat.eqb_eq in E; subst k0. auto.
+    + intros x Hx. apply in_app_or in Hx. destruct Hx as [Hx|[<-|[]]]; auto. right. split; auto.
+      cbn [snd]. rewrite upd_length. apply nth_error_Some. congruence.
+  - exact H.
+Qed.
